@@ -51,10 +51,14 @@ pub enum Content {
     Overlong,
     Surrogate,
     F5,
+    /// valid: a byte-order mark at the head
+    BomHead,
+    /// valid: a four-octet scalar at the head, a three-octet non-character at the tail
+    U4Head,
 }
 
 pub const BASIC_CONTENT: [Content; 4] = [Content::Valid, Content::Ramp, Content::Zero, Content::Ff];
-pub const STRING_CONTENT: [Content; 12] = [
+pub const STRING_CONTENT: [Content; 14] = [
     Content::Valid,
     Content::Ramp,
     Content::Zero,
@@ -67,6 +71,8 @@ pub const STRING_CONTENT: [Content; 12] = [
     Content::Overlong,
     Content::Surrogate,
     Content::F5,
+    Content::BomHead,
+    Content::U4Head,
 ];
 
 /// offset of the string part inside the payload of string-bearing kinds
@@ -105,6 +111,17 @@ fn fill_string(s: &mut [u8], class: Content) {
         Content::Overlong => put_tail(s, &[0xc0, 0x80]),
         Content::Surrogate => put_tail(s, &[0xed, 0xa0, 0x80]),
         Content::F5 => put_tail(s, &[0xf5, 0x80, 0x80, 0x80]),
+        Content::BomHead => {
+            if n >= 3 {
+                s[..3].copy_from_slice(&[0xef, 0xbb, 0xbf]);
+            }
+        }
+        Content::U4Head => {
+            if n >= 7 {
+                s[..4].copy_from_slice(&[0xf4, 0x8f, 0xbf, 0xbf]);
+                s[n - 3..].copy_from_slice(&[0xef, 0xbf, 0xbf]);
+            }
+        }
         _ => (),
     }
 }
